@@ -98,7 +98,10 @@ Theorem def_clone1_stage s0 s m d G m' d' :
   (forall p, In p (kids s0 RCables d) -> exists p', In (p, p') m' /\ In p' (kids G RCables d') /\ ImgOK s0 RWires p p' G m') /\
   (forall p, In p (kids s0 RChildren d) -> exists p', In (p, p') m' /\ In p' (kids G RChildren d')) /\
   (forall p', In p' (kids G RPorts d') -> exists p, In (p, p') m' /\ In p (kids s0 RPorts d)) /\
-  (forall p', In p' (kids G RChildren d') -> exists p, In (p, p') m' /\ In p (kids s0 RChildren d)).
+  (forall p', In p' (kids G RChildren d') -> exists p, In (p, p') m' /\ In p (kids s0 RChildren d)) /\
+  Forall2 (fun p p' => In (p, p') m') (kids s0 RPorts d) (kids G RPorts d') /\
+  Forall2 (fun p p' => In (p, p') m') (kids s0 RCables d) (kids G RCables d') /\
+  Forall2 (fun p p' => In (p, p') m') (kids s0 RChildren d) (kids G RChildren d').
 Proof.
   intros I1 HT F PK0 Hab Hpl Hd Hkd Hfree E.
   pose proof (pk_0k _ _ _ _ PK0) as H0k.
@@ -310,21 +313,27 @@ Proof.
     assert (Hkp' : kids s8 RPins p' = kids s2 RPins p').
     { rewrite Hk8, (Hk5 RPins p') by (pose proof (HP' p' Hp'); lia).
       destruct Ks3 as [_ Ks3]. destruct Ks4 as [_ Ks4]. rewrite Ks4, Ks3 by (pose proof (R2 p' Hp'); lia). reflexivity. }
-    split.
+    split; [|split].
     + intros i Hi. destruct (proj1 Himg i Hi) as [i' [Hi'm Hi'k]]. exists i'. split; [apply Sb4, Sb3; exact Hi'm|]. rewrite Hkp'. exact Hi'k.
-    + intros i' Hi'. rewrite Hkp' in Hi'. destruct (proj2 Himg i' Hi') as [i [Him Hik]]. exists i. split; [apply Sb4, Sb3; exact Him|exact Hik].
+    + intros i' Hi'. rewrite Hkp' in Hi'. destruct (proj1 (proj2 Himg) i' Hi') as [i [Him Hik]]. exists i. split; [apply Sb4, Sb3; exact Him|exact Hik].
+    + rewrite Hkp'. generalize (proj2 (proj2 Himg)). apply forall2_mono. intros a0 b0 H. apply Sb4, Sb3. exact H.
   - intros p Hp. destruct (forall2_in_r _ _ _ Fa3 p Hp) as [p' [Hp' [Hpm Himg]]]. exists p'.
     split; [apply Sb4; exact Hpm|]. split; [rewrite Hk8, Hc5; exact Hp'|].
     assert (Hkp' : kids s8 RWires p' = kids s3 RWires p').
     { rewrite Hk8, (Hk5 RWires p') by (pose proof (HC' p' Hp'); lia).
       destruct Ks4 as [_ Ks4]. rewrite Ks4 by (pose proof (R3 p' Hp'); lia). reflexivity. }
-    split.
+    split; [|split].
     + intros i Hi. destruct (proj1 Himg i Hi) as [i' [Hi'm Hi'k]]. exists i'. split; [apply Sb4; exact Hi'm|]. rewrite Hkp'. exact Hi'k.
-    + intros i' Hi'. rewrite Hkp' in Hi'. destruct (proj2 Himg i' Hi') as [i [Him Hik]]. exists i. split; [apply Sb4; exact Him|exact Hik].
+    + intros i' Hi'. rewrite Hkp' in Hi'. destruct (proj1 (proj2 Himg) i' Hi') as [i [Him Hik]]. exists i. split; [apply Sb4; exact Him|exact Hik].
+    + rewrite Hkp'. generalize (proj2 (proj2 Himg)). apply forall2_mono. intros a0 b0 H. apply Sb4. exact H.
   - intros p Hp. destruct (forall2_in_r _ _ _ Fa4 p Hp) as [p' [Hp' [Hpm _]]]. exists p'.
     split; [exact Hpm|]. rewrite Hk8, Hx5. exact Hp'.
   - intros p' Hp'. rewrite Hk8, Hp5 in Hp'.
     destruct (forall2_in_l _ _ _ Fa2 p' Hp') as [p [Hp [Hpm _]]]. exists p. split; [apply Sb4, Sb3; exact Hpm|exact Hp].
-  - intros p' Hp'. rewrite Hk8, Hx5 in Hp'.
-    destruct (forall2_in_l _ _ _ Fa4 p' Hp') as [p [Hp [Hpm _]]]. exists p. split; [exact Hpm|exact Hp].
+  - split; [|split; [|split]].
+    + intros p' Hp'. rewrite Hk8, Hx5 in Hp'.
+      destruct (forall2_in_l _ _ _ Fa4 p' Hp') as [p [Hp [Hpm _]]]. exists p. split; [exact Hpm|exact Hp].
+    + rewrite Hk8, Hp5. revert Fa2. apply forall2_mono. intros a0 b0 [H _]. apply Sb4, Sb3. exact H.
+    + rewrite Hk8, Hc5. revert Fa3. apply forall2_mono. intros a0 b0 [H _]. apply Sb4. exact H.
+    + rewrite Hk8, Hx5. revert Fa4. apply forall2_mono. intros a0 b0 [H _]. exact H.
 Qed.
